@@ -352,7 +352,16 @@ def _score_bits(x):
 
 def _entry_obs(e):
     rank, ub, ua, pending, order, app = e
-    return '%d:%d:%d:%d:%d:%d' % (aid(app.name), rank, 1 if pending else 0, bits(ub), bits(ua), int(order))
+    return '%d:%d:%d:%d:%d:%s' % (aid(app.name), rank, 1 if pending else 0, bits(ub), bits(ua), _arrival_no(order))
+
+
+def _arrival_no(order):
+    """The arrival number behind a `global_order` stamp (microseconds since the scheduler's base date; the
+    instances are created a quarter of a second apart, see `_arrive`); a stamp that is not one of those
+    instants is shown raw."""
+    from treadmill import scheduler as sch
+    rel = int(order) - (int(T0 * 1000000) - sch._GLOBAL_ORDER_BASE)      # pylint: disable=protected-access
+    return '%d' % (rel // 250000) if rel % 250000 == 0 else 'raw%d' % int(order)
 
 
 def _queue_obs(q):
@@ -424,14 +433,15 @@ def _monitor(run, q, tree_info, sch, site, running):
         a = ti['alloc']
         mine = sorted((n for n in ti['names'] if n in pos), key=lambda n: pos[n])
         apps = [a.apps[n] for n in mine]
-        keys = [(-x.priority, 0 if running[x.name] else 1, x.global_order, x.name) for x in apps]
+        arr = ti['arrival']
+        keys = [(-x.priority, 0 if running[x.name] else 1, arr[x.name], x.name) for x in apps]
         for i in range(len(keys) - 1):
             if keys[i] > keys[i + 1]:
                 run.hits.append(fw.Hit(clause='alloc-order', call_site=site,
                                        detail='%s before %s in allocation %s' % (mine[i], mine[i + 1], a.name)))
                 break
         # reservation / cap, exact arithmetic, cumulative demand in priority order
-        order = sorted(a.apps.values(), key=lambda x: (-x.priority, 0 if running[x.name] else 1, x.global_order, x.name))
+        order = sorted(a.apps.values(), key=lambda x: (-x.priority, 0 if running[x.name] else 1, arr[x.name], x.name))
         res = [Fraction(float(r)) for r in a.reserved]
         acc = [Fraction(0)] * 3
         mu = a.max_utilization
@@ -484,14 +494,24 @@ def run_impl(case, pid):
     import numpy as np
     sch.DIMENSION_COUNT = 3
     run = fw.ImplRun()
-    with mock.patch('time.time', lambda: 1500000000.0), np.errstate(all='ignore'):
-        _run_queue(case, run, sch, np)
+    clock = [T0]
+    with mock.patch('time.time', lambda: clock[0]), np.errstate(all='ignore'):
+        _run_queue(case, run, sch, np, clock)
         if case.get('asg') and (case['asg']['entries'] or case['asg']['finds'] or case['asg']['loads']):
             _run_assign(case['asg'], run)
     return run
 
 
-def _run_queue(case, run, sch, np):
+T0 = 1500000000.0
+
+
+def _arrive(clock, order):
+    """The clock at which the instance with arrival number `order` is created: a quarter of a second
+    apart (exact in binary), so that `Application.__init__` stamps it through the real `_global_order()`."""
+    clock[0] = T0 + order * 0.25
+
+
+def _run_queue(case, run, sch, np, clock):
     # ---- the cell -----------------------------------------------------------------------------
     cell = sch.Cell('top')
     servers = {}
@@ -518,6 +538,7 @@ def _run_queue(case, run, sch, np):
     # ---- the allocation tree ------------------------------------------------------------------
     info = []
     napps = [0]
+    arrival = {}        # instance -> its arrival number in the case (the monitor's first-come order)
 
     def mk(t, path):
         # as the loader does: get_sub_alloc creates `Allocation()`, load_allocations calls `update`
@@ -529,15 +550,17 @@ def _run_queue(case, run, sch, np):
         a.update(list(t['res']), t['rank'], t['adj'], t['maxu'])
         names = set()
         for ad in t['apps']:
+            _arrive(clock, ad['ord'])
             app = sch.Application(aname(ad['id']), ad['prio'], list(ad['dem']), 'aff%d' % ad['id'])
-            app.global_order = ad['ord']
+            clock[0] = T0
+            arrival[app.name] = ad['ord']
             if ad['id'] in moved:
                 pending.append((app, a))          # joins `a` later, coming from another allocation
             else:
                 cell.add_app(a, app)
             names.add(app.name)
             napps[0] += 1
-        ti = {'alloc': a, 'names': names, 'path': path, 't': t}
+        ti = {'alloc': a, 'names': names, 'path': path, 't': t, 'arrival': arrival}
         info.append(ti)
         for i, s in enumerate(t['subs']):
             a.add_sub_alloc('s%d' % i, mk(s, path + [i]))
@@ -554,8 +577,9 @@ def _run_queue(case, run, sch, np):
         run.tags.add('moved' if first is not final else 'moved-same')
     # instances added (possibly moved once) and removed again
     for d in case.get('drops', []):
+        _arrive(clock, 100000 + d[0])
         app = sch.Application(aname(d[0]), d[2], list(d[3]), 'aff%d' % d[0])
-        app.global_order = 100000 + d[0]
+        clock[0] = T0
         cell.add_app(info[d[1] % len(info)]['alloc'], app)
         if d[4] is not None:
             cell.add_app(info[d[4] % len(info)]['alloc'], app)
